@@ -67,6 +67,8 @@ func (cbm *callbackMgr[T]) runCBs(ctx context.Context) {
 	newCfgCBs := make([]*userCallbackHandle[T], 0)
 	lastSerial := uint64(0)
 	lastVersion := (*T)(nil)
+	defer verifPoint("cb.exit")
+	verifPoint("cb.take")
 	for ev := range cbm.ch {
 		switch e := ev.(type) {
 		case *watchErrorEvent[T]:
@@ -105,9 +107,11 @@ func (cbm *callbackMgr[T]) runCBs(ctx context.Context) {
 				removed = append(removed, cb)
 			}
 			newCfgCBs = removed
+			verifPoint("cb.ack")
 			close(e.done)
 		default:
 			panic(fmt.Errorf("unknown type %T for user callback event", ev))
 		}
+		verifPoint("cb.take")
 	}
 }
